@@ -467,6 +467,27 @@ pub fn gen_session(seed: u64, run: u64, thorough: bool) -> Session {
         }
     }
     let sequential = !rng.chance(1, 3);
+    // One session in four: files vanish or change *while* the server is loading a package -
+    // between its look at the directory and its read of a file, between finding a project root
+    // and reading its manifest (an own PRNG stream, so that the rest of the session is what it
+    // was before this fault kind existed).
+    let mut midload = Vec::new();
+    let mut frng = Rng::new(mix(mix(seed, run), 0xD15C));
+    if frng.chance(1, 4) {
+        for _ in 0..frng.range(1, 2) {
+            let k = if frng.chance(2, 3) { frng.range(1, 12) } else { frng.range(1, 40) } as u64;
+            let file = |r: &mut Rng| r.pick(&["src/a.gleam", "src/b.gleam", "test/t.gleam", "gleam.toml", "build/packages/dep/gleam.toml", "build/packages/dep/src/d.gleam"]).to_string();
+            let d = match frng.below(10) {
+                0..=3 => DiskOp::Remove { path: file(&mut frng) },
+                4..=5 => DiskOp::RemoveDir { path: frng.pick(&["src", "test", "build", "build/packages/dep", "build/packages/dep/src"]).to_string() },
+                6 => DiskOp::Write { path: frng.pick(&["gleam.toml", "build/packages/dep/gleam.toml"]).to_string(), text: frng.pick(&["name = [\n", "version = \"1\"\n", ""]).to_string() },
+                7 => DiskOp::WriteBytes { path: file(&mut frng), bytes: vec![0xff, 0xfe, 0x00, 0x80] },
+                8 => DiskOp::Write { path: file(&mut frng), text: "pub fn replaced_on_disk() { 1 }\n".into() },
+                _ => DiskOp::Remove { path: "gleam.toml".into() },
+            };
+            midload.push((k, d));
+        }
+    }
     Session {
         property: "C15".into(),
         seed,
@@ -482,6 +503,7 @@ pub fn gen_session(seed: u64, run: u64, thorough: bool) -> Session {
         tree,
         ops,
         crashes: Vec::new(),
+        midload,
         decisions: None,
         hold: None,
         meta: json!({}),
@@ -749,8 +771,16 @@ pub fn check(s: &Session, h: &History, stats: &mut Stats) -> Option<Violation> {
     // per document: the set of texts the server may legally hold (None = not tracked)
     let mut states: BTreeMap<String, BTreeSet<Option<String>>> = BTreeMap::new();
     let mut last_kinds: BTreeMap<String, Vec<String>> = BTreeMap::new();
-    let mut disk_touched = false;
+    // a disk fault inside an operation is disk activity at a moment the operation list does not
+    // show: the relaxation for documents the client does not maintain holds from the start
+    let mid_fired = h.faults.get("disk_mid_operation").copied().unwrap_or(0) > 0;
+    let mut disk_touched = mid_fired;
     let mut disk_kinds: Vec<String> = Vec::new();
+    if mid_fired {
+        disk_kinds.push("disk.mid_operation".into());
+        stats.disk_faults += 1;
+        stats.nontrivial = true;
+    }
     let mut open_now: BTreeSet<String> = BTreeSet::new();
     let mut alt_event: BTreeSet<String> = BTreeSet::new();
     let mut maybe_forgotten: BTreeSet<String> = BTreeSet::new();
